@@ -17,6 +17,7 @@ integrations `cur`"), holds for the freshly constructed detector with `cur = []`
 set_option linter.unusedSimpArgs false
 set_option linter.unusedVariables false
 set_option linter.unusedSectionVars false
+set_option linter.unnecessarySeqFocus false
 
 namespace HcipyVerif.Detector
 open HcipyVerif.Binning
@@ -354,6 +355,93 @@ example :
       ({ flat := [1, 1], dark := [0, 0], sigma := [0, 0] } : PSt Rat)
       [.setFlat [2, 3], .integrate [1, 1] 1 1, .readOut, .setFlat [1, 1], .integrate [1, 2] 1 1, .readOut]
       = [(false, .image [2, 3]), (true, .image [1, 2])] := by decide +kernel
+
+/-! ### reference level: aliasing
+
+Model/Detector.lean `rStep`: arrays are heap cells, the caller holds handles and may write through them. -/
+
+/-- **Bridge reference level → value level**: with arrays as heap cells and the caller free to overwrite every
+array it holds (buffers it passed in, images it got back) at any time, the images the read-outs return — each
+as it is when it is returned — are those of the value model `run` on the history in which every integration
+sees the content its buffer has at the call.  So every theorem above about `run` (`readout_is_sum`,
+`readout_pixel_index`, `readout_total`, …) holds for the reference-level detector, whatever the caller scribbles. -/
+theorem ref_images_eq_value_images (g : Geom) (ops : List (ROp K)) (st : RSt K) (h : RInv st) :
+    rImages g st ops = images (run g (absSt st) (valueOps g st ops)).2 := by
+  induction ops generalizing st with
+  | nil => simp [rImages, valueOps, run_nil, images]
+  | cons op ops ih =>
+    have hi := rStep_inv g st op h
+    cases op with
+    | alloc v =>
+      simp only [rImages, valueOps]
+      rw [ih _ hi, absSt_alloc g st v h]
+    | write r v =>
+      simp only [rImages, valueOps]
+      rw [ih _ hi, absSt_write g st r v h]
+    | integrate buf dt w =>
+      simp only [rImages, valueOps, run_cons]
+      rw [ih _ hi, absSt_integrate g st buf dt w h]
+      cases hs : (step g (absSt st) (Op.integrate (st.at buf) dt w)).2 <;>
+        simp [images] <;> simp [step, Detector.integrate] at hs <;> split at hs <;> simp at hs
+    | readOut =>
+      obtain ⟨e1, e2⟩ := absSt_readOut g st
+      simp only [rImages, valueOps, run_cons]
+      rw [ih _ hi, e1, e2]
+      simp [images]
+
+/-- **No aliasing**: an array the caller holds (a buffer it passed in, an image it got back) keeps its
+content through every later operation of the detector; only the caller's own writes to *that* array
+change it. -/
+theorem caller_arrays_untouched (g : Geom) (ops : List (ROp K)) (st : RSt K) (h : RInv st) (r : Nat)
+    (hr : r ∈ st.known) (hw : ∀ v, ROp.write r v ∉ ops) : (rRun g st ops).1.at r = st.at r := by
+  induction ops generalizing st with
+  | nil => rfl
+  | cons op ops ih =>
+    rw [rRun_cons]
+    simp only
+    rw [ih _ (rStep_inv g st op h) (rStep_known_sub g st op r hr) (fun v hv => hw v (by simp [hv]))]
+    have hlt := h.known_lt r hr
+    cases op with
+    | alloc v => simp only [rStep, RSt.at]; exact getD_append_lt _ _ _ hlt
+    | write r' v =>
+      simp only [rStep]
+      split
+      · have : r' ≠ r := by
+          rintro rfl
+          exact hw v (by simp)
+        simp only [RSt.at]; exact getD_set_ne _ _ _ _ this
+      · rfl
+    | integrate buf dt w =>
+      simp only [rStep]
+      split
+      · simp only [RSt.at]; exact getD_append_lt _ _ _ hlt
+      · rfl
+    | readOut => simp only [rStep, RSt.at]; exact getD_append_lt _ _ _ hlt
+
+
+/-- the first clause at reference level: the images are the sums over the exposures of the value history -/
+theorem ref_readout_is_sum (g : Geom) (ops : List (ROp K)) :
+    rImages g ({} : RSt K) ops = (exposures g [] (valueOps g {} ops)).map (sumCharges g) := by
+  rw [ref_images_eq_value_images g ops {} RInv.init]
+  exact readout_is_sum g _
+
+/-- **Bad** (in-place accumulation into the caller's buffer, read-out without copy): the array the caller passed
+in changes without the caller writing to it, and the image handed out *is* that array — on the same history the
+model of the real code leaves the buffer alone and hands out a new array.  (`caller_arrays_untouched` is
+therefore not true of every step function.) -/
+theorem Bad_detector_aliases :
+    let g : Geom := { dims := [2], s := 1 }
+    let ops : List (ROp Rat) := [.alloc [1, 2], .integrate 0 2 1, .readOut]
+    (rRunBad g {} ops).1.at 0 = [2, 4] ∧ (rRunBad g {} ops).2 = [.ref 0, .done, .ref 0] ∧
+    (rRun g {} ops).1.at 0 = [1, 2] ∧ (rRun g {} ops).2 = [.ref 0, .done, .ref 2] := by
+  decide +kernel
+
+/-- the hypotheses of `caller_arrays_untouched` are satisfiable, and a write to another array is allowed -/
+example : RInv (rRun ({ dims := [2], s := 1 } : Geom) ({} : RSt Rat) [.alloc [1, 2], .integrate 0 2 1]).1 ∧
+    (0 : Nat) ∈ (rRun ({ dims := [2], s := 1 } : Geom) ({} : RSt Rat) [.alloc [1, 2], .integrate 0 2 1]).1.known :=
+  ⟨by
+    have h0 : RInv ({} : RSt Rat) := RInv.init
+    exact rStep_inv _ _ _ (rStep_inv _ _ _ h0), by decide +kernel⟩
 
 /-! ### Old: the unrepaired tree (documentation of D15 / D29, not evidence: /repo is repaired, no driver op
 runs the `…Old` definitions and the harness sends nothing to them) -/
